@@ -5,8 +5,9 @@
    spec_index n p : the 0-based index that position p denotes in a sequence of length n (1..n from the start, -1..-n from the end);
    fits n : n <= 2^64 - 1 (the length of a list that exists in memory);  teq : C09's equality. *)
 From Coq Require Import List NArith ZArith Bool Arith Permutation Sorted.
+From DV Require Import Base.Dec Base.DecRound C02.Model.
 From DV Require Import C09.Values C09.Model C08.Model C08.Proofs.
-From DV Require Import C08.Model2 C08.StddevSqrt C08.SortProofs C08.ModeProofs C08.StatProofs C08.LiteralProofs.
+From DV Require Import C08.Model2 C08.SortProofs C08.ModeProofs C08.NumProofs C08.StatProofs C08.LiteralProofs.
 Import ListNotations.
 Open Scope Z_scope.
 
@@ -159,18 +160,110 @@ Proof. exact substring_before_after_no_match. Qed.
 Theorem C08_string_length :
   forall s, b_string_length (VStr s) = VNum (Z.of_nat (length s)) 0.
 Proof. exact string_length_spec. Qed.
-Theorem C08_sum :
-  forall n ns, b_sum (map vnum (n :: ns)) = vnum (fold_left nadd (n :: ns) (0, 0)).
+(* ---------------- numeric aggregates over the shared decimal128 layer (Base/DecRound.v; C08/NumProofs.v) ----------------
+   A number is a pair (c, e) = c * 10^e.  nadd / nsub / ndiv / nsqrt (C08/Model.v) ARE Base/DecRound.v dadd / dsub / ddiv / dsqrt
+   on the datum of the pair (to_dec), followed by the removal of trailing zeros of number.rs (reduced) - the operators f_add ...
+   of C02/Model.v; None = the result is outside the decimal128 range = the FEEL value null.  nadd_opt acc x : one turn of a loop
+   `sum += x` (None stays None).  nfmt p : |c| < 10^34 and -6176 <= e <= 6111.  nveq : equality of the values (C09 ncmp = Eq).
+   exact_sum a b : the exact sum as an integer at the smaller exponent.  target_exp m e (Base/DecRound.v): the exponent that
+   leaves 34 digits of m * 10^e, not below -6176.  There is no assumption on the size of a sum any more. *)
+Theorem C08_operators_are_the_shared_layer :
+  forall a b,
+  nadd a b = option_map of_dec (f_add (to_dec a) (to_dec b)) /\ nsub a b = option_map of_dec (f_sub (to_dec a) (to_dec b)) /\
+  ndiv a b = option_map of_dec (f_div (to_dec a) (to_dec b)) /\ nsqrt a = option_map of_dec (f_sqrt (to_dec a)).
+Proof. exact ops_are_c02. Qed.
+Theorem C08_number_datum_round_trip :
+  forall p, of_dec (to_dec p) = p /\ (in_format (to_dec p) = true <-> nfmt p) /\ sval (to_dec p) = fst p /\ expo (to_dec p) = snd p.
+Proof. exact (fun p => conj (of_dec_to_dec p) (conj (to_dec_in_format p) (conj (sval_to_dec p) (expo_to_dec p)))). Qed.
+
+(* sum(x1, ..., xn) = (..(x1 + x2) + ..) + xn, left to right as the Rust loop, null once a step overflows *)
+Theorem C08_sum_is_rounded_fold :
+  forall x xs, b_sum (map vnum (x :: xs)) = vopt (fold_left nadd_opt xs (Some x)).
 Proof. exact sum_spec. Qed.
-Theorem C08_mean :
-  forall n ns,
-  b_mean (map vnum (n :: ns)) = vnum (ndiv (fold_left nadd (n :: ns) (0, 0)) (Z.of_nat (length (n :: ns)), 0)).
-Proof. exact mean_spec. Qed.
-Theorem C08_median :
-  forall n ns,
-  let s := nsort (n :: ns) in let k := (length s / 2)%nat in
-  b_median (map vnum (n :: ns)) =
-  if Nat.even (length s) then vnum (ndiv (nadd (nth (k - 1) s (0, 0)) (nth k s (0, 0))) (2, 0)) else vnum (nth k s (0, 0)).
+(* every + is the correctly rounded decimal128 addition (transfer of C02_round34_nearest_even / C02_add_null_iff_overflow):
+   null EXACTLY when the exact sum reaches (10^34 - 1/2) * 10^6111; otherwise a datum in format within half a unit of the
+   34-digit quantum 10^e1 of the exact sum z * 10^e, ties to the even coefficient, exact when the sum fits *)
+Theorem C08_add_correctly_rounded :
+  forall a b,
+  let z := fst (exact_sum a b) in let e := snd (exact_sum a b) in let base := Z.min e ETINY in
+  (nadd a b = None <-> (2 * 10 ^ 34 - 1) * 10 ^ (ETOP - base) <= 2 * Z.abs z * 10 ^ (e - base)) /\
+  forall r, nadd a b = Some r ->
+    nfmt r /\ base <= snd r /\
+    (z = 0 -> fst r = 0) /\
+    (z <> 0 ->
+     let e1 := target_exp (Z.abs_N z) e in
+     2 * Z.abs (fst r * 10 ^ (snd r - base) - z * 10 ^ (e - base)) <= 10 ^ (e1 - base) /\
+     (e < e1 -> 2 * Z.abs (fst r * 10 ^ (snd r - base) - z * 10 ^ (e - base)) = 10 ^ (e1 - base) ->
+      N.even (round_half_even (Z.abs_N z) (Z.to_N (e1 - e))) = true) /\
+     (e1 = e -> fst r * 10 ^ (snd r - base) = z * 10 ^ (e - base))).
+Proof. exact nadd_correctly_rounded. Qed.
+(* what used to be an assumption of the model: a sum of at most 34 digits is the exact sum *)
+Theorem C08_add_exact_within_34_digits :
+  forall a b,
+  let z := fst (exact_sum a b) in let e := snd (exact_sum a b) in
+  Z.abs z < 10 ^ 34 -> ETINY <= e <= ETOP -> exists r, nadd a b = Some r /\ nveq r (z, e).
+Proof. exact nadd_exact_within_34_digits. Qed.
+Theorem C08_sub_is_add_of_the_negation :
+  forall a b, nsub a b = nadd a (- fst b, snd b).
+Proof. exact nsub_is_nadd. Qed.
+Theorem C08_sum_in_format :
+  forall xs x r, nfmt x -> fold_left nadd_opt xs (Some x) = Some r -> nfmt r.
+Proof. exact sum_in_format. Qed.
+(* rounding sums, ties to even, overflow to null, dependence on the order, gradual underflow of a mean, tiny + huge *)
+Example C08_sum_order_matters :
+  b_sum (map vnum [(1, 34); (5, 0); (5, 0)]) = VNum 1 34 /\
+  b_sum (map vnum [(5, 0); (5, 0); (1, 34)]) = VNum 1000000000000000000000000000000001 1 /\
+  b_sum (map vnum [(9999999999999999999999999999999999, 0); (5, -1)]) = VNum 1 34 /\
+  b_sum (map vnum [(9999999999999999999999999999999998, 0); (5, -1)]) = VNum 9999999999999999999999999999999998 0 /\
+  b_sum (map vnum [(9999999999999999999999999999999999, 6111); (4, 6110)]) = VNum 9999999999999999999999999999999999 6111 /\
+  b_sum (map vnum [(9999999999999999999999999999999999, 6111); (5, 6110)]) = VNull /\
+  b_sum (map vnum [(9999999999999999999999999999999999, 6111); (5, 6110); (-9999999999999999999999999999999998, 6111)]) = VNull /\
+  b_sum (map vnum [(9999999999999999999999999999999999, 6111); (-9999999999999999999999999999999998, 6111); (5, 6110)]) = VNum 15 6110 /\
+  b_median (map vnum [(9, 6111); (9999999999999999999999999999999999, 6111)]) = VNull /\
+  b_mean (map vnum [(1, -6176); (1, -6176); (1, -6176); (2, -6176)]) = VNum 1 (-6176) /\
+  b_mean (map vnum [(1, 40); (1, -40)]) = VNum 5 39.
+Proof. exact sum_order_matters. Qed.
+
+(* mean(x1, ..., xn) = (((0 + x1) + ..) + xn) / n: the correctly rounded quotient of that rounded sum s by the count
+   (transfer of C02_div_correctly_rounded: c * 10^q is a nearest multiple of 10^q to |s| / n, ties to the even c) *)
+Theorem C08_mean_correctly_rounded :
+  forall x xs,
+  let l := x :: xs in let n := Z.of_nat (length l) in
+  b_mean (map vnum l) = vopt (obind (fold_left nadd_opt l (Some (0, 0))) (fun s => ndiv s (n, 0))) /\
+  forall s, fold_left nadd_opt l (Some (0, 0)) = Some s ->
+    (fst s = 0 -> b_mean (map vnum l) = VNum 0 0) /\
+    (fst s <> 0 -> forall r, ndiv s (n, 0) = Some r ->
+       b_mean (map vnum l) = vnum r /\
+       exists (c : N) (q : Z),
+         nfmt r /\ nveq r ((if fst s <? 0 then - Z.of_N c else Z.of_N c), q) /\
+         (c <= 10 ^ 34)%N /\ ETINY <= q /\ (ETINY < q -> (10 ^ 33 <= c)%N) /\
+         forall B, B <= snd s -> B <= q ->
+           let X := Z.abs (fst s) * 10 ^ (snd s - B) in
+           let Y := n * 10 ^ (q - B) in
+           2 * Z.abs (Z.of_N c * Y - X) <= Y /\ (2 * Z.abs (Z.of_N c * Y - X) = Y -> N.even c = true)).
+Proof. exact mean_correctly_rounded. Qed.
+Theorem C08_div_correctly_rounded :
+  forall a b r, fst a <> 0 -> fst b <> 0 -> ndiv a b = Some r ->
+  exists (c : N) (q : Z),
+    nfmt r /\ nveq r ((if xorb (fst a <? 0) (fst b <? 0) then - Z.of_N c else Z.of_N c), q) /\
+    (c <= 10 ^ 34)%N /\ ETINY <= q /\ (ETINY < q -> (10 ^ 33 <= c)%N) /\
+    forall B, B <= snd a -> B <= q + snd b ->
+      let X := Z.abs (fst a) * 10 ^ (snd a - B) in
+      let Y := Z.abs (fst b) * 10 ^ (q + snd b - B) in
+      2 * Z.abs (Z.of_N c * Y - X) <= Y /\ (2 * Z.abs (Z.of_N c * Y - X) = Y -> N.even c = true).
+Proof. exact ndiv_correctly_rounded. Qed.
+Theorem C08_div_zero_cases :
+  (forall e b, fst b <> 0 -> ndiv (0, e) b = Some (0, 0)) /\ (forall a e, ndiv a (0, e) = None).
+Proof. exact (conj ndiv_zero_dividend ndiv_by_zero). Qed.
+
+(* median: the middle item of the sorted list, or the correctly rounded half of the correctly rounded sum of the two middle items *)
+Theorem C08_median_spec :
+  forall x xs,
+  let s := nsort (x :: xs) in let k := (length s / 2)%nat in
+  b_median (map vnum (x :: xs)) =
+  if Nat.even (length s)
+  then vopt (obind (nadd (nth (k - 1) s (0, 0)) (nth k s (0, 0))) (fun t => ndiv t (2, 0)))
+  else vnum (nth k s (0, 0)).
 Proof. exact median_spec. Qed.
 Theorem C08_sort_permutation :
   forall l, Permutation (nsort l) l.
@@ -256,7 +349,6 @@ Proof. exact min_max_dispatch. Qed.
    swo_on lt l (boolean) : lt is irreflexive and transitive on the items of l and x < z implies x < y or y < z (a strict weak order;
                      every strict total order is one);  sorted_by lt l : no later item strictly precedes an earlier one;
    eqv lt x y : neither precedes the other;  is_order_stat l i v : v is an item, at most i items are below v, more than i are not above v;
-   radd / rsub / rsquare : the exact operation followed by the rounding to 34 digits (nround), rsum : their fold;
    split_lit / replace_lit : leftmost non-overlapping occurrences of a literal pattern;  join d ps : the pieces with d between them. *)
 Theorem C08_mode :
   forall n ns, exists rs, b_mode (map vnum (n :: ns)) = VList (map vnum rs) /\ is_mode_of (n :: ns) rs.
@@ -325,46 +417,91 @@ Theorem C08_median_order_statistic :
   forall n ns,
   let l := n :: ns in let k := (length l / 2)%nat in
   if Nat.even (length l)
-  then exists lo hi, b_median (map vnum l) = vnum (ndiv (nadd lo hi) (2, 0)) /\ is_order_stat l (k - 1) lo /\ is_order_stat l k hi
+  then exists lo hi, b_median (map vnum l) = vopt (obind (nadd lo hi) (fun t => ndiv t (2, 0))) /\ is_order_stat l (k - 1) lo /\ is_order_stat l k hi
   else exists m, b_median (map vnum l) = vnum m /\ is_order_stat l k m.
 Proof. exact median_order_stat. Qed.
 Theorem C08_order_statistic_is_determined :
   forall l i v v', is_order_stat l i v -> is_order_stat l i v' -> neqv v v' = true.
 Proof. exact order_stat_unique. Qed.
 
-(* stddev: the sample standard deviation; `sqrt` stands for FeelNumber::sqrt *)
-Theorem C08_stddev :
-  forall sqrt x1 x2 ns,
-  let l := x1 :: x2 :: ns in
+(* stddev(x1, ..., xn), n >= 2, with the exact sequence of rounded operations of core.rs:
+     sum = ((0 + x1) + ..) + xn;  mean = sum / n;  sum2 = ((0 + (x1 - mean)^2) + ..) + (xn - mean)^2;  sqrt(sum2 / (n - 1))
+   + - / sqrt : the correctly rounded operations of the shared layer (C08_add_correctly_rounded, C08_sub_is_add_of_the_negation,
+   C08_div_correctly_rounded, C08_sqrt_correctly_rounded);  ^2 = nsquare = FeelNumber::square = decNumberPower(x, 2), which rounds
+   TWICE (37 digits, then 34: C08_square_two_roundings);  null as soon as one step is *)
+Theorem C08_stddev_spec :
+  forall x1 x2 xs,
+  let l := x1 :: x2 :: xs in
   let n := (Z.of_nat (length l), 0) in
-  let mean := ndiv (rsum l) n in
-  let squares := map (fun x => rsquare (rsub x mean)) l in
-  b_stddev sqrt (map vnum l) =
-  match sqrt (ndiv (rsum squares) (rsub n (1, 0))) with Some r => vnum r | None => VNull end.
+  b_stddev (map vnum l) =
+  vopt (obind (fold_left nadd_opt l (Some (0, 0))) (fun sum =>
+        obind (ndiv sum n) (fun mean =>
+        obind (fold_left (fun acc x => obind acc (fun s => obind (nsub x mean) (fun d => obind (nsquare d) (fun q => nadd s q)))) l (Some (0, 0))) (fun sum2 =>
+        obind (nsub n (1, 0)) (fun n1 =>
+        obind (ndiv sum2 n1) nsqrt))))).
 Proof. exact stddev_spec. Qed.
 Theorem C08_stddev_outside_domain :
-  forall sqrt,
-  b_stddev sqrt [] = VNull /\ (forall x, b_stddev sqrt [x] = VNull) /\
-  forall pre x post, (match x with VNum _ _ => False | _ => True end) -> b_stddev sqrt (map vnum pre ++ x :: post) = VNull.
+  b_stddev [] = VNull /\ (forall x, b_stddev [x] = VNull) /\
+  forall pre x post, (match x with VNum _ _ => False | _ => True end) -> b_stddev (map vnum pre ++ x :: post) = VNull.
 Proof. exact stddev_outside. Qed.
-Theorem C08_rounding_exact_within_34_digits :
-  forall c e, digits (Z.abs c) <= 34 -> nround (c, e) = (c, e).
-Proof. exact nround_exact. Qed.
+(* transfer of C02_sqrt_correctly_rounded: c * 10^q is a nearest multiple of 10^q to the exact root, ties to the even c *)
+Theorem C08_sqrt_correctly_rounded :
+  forall a r, 0 < fst a -> nsqrt a = Some r ->
+  exists (c : N) (q : Z),
+    nfmt r /\ nveq r (Z.of_N c, q) /\
+    (c <= 10 ^ 34)%N /\ ETINY <= q /\ (ETINY < q -> (10 ^ 33 <= c)%N) /\
+    forall B, B <= q -> 2 * B <= snd a ->
+      let X := 4 * fst a * 10 ^ (snd a - 2 * B) in
+      let lo := (2 * Z.of_N c - 1) * 10 ^ (q - B) in
+      let hi := (2 * Z.of_N c + 1) * 10 ^ (q - B) in
+      X <= hi ^ 2 /\ ((0 < c)%N -> lo ^ 2 <= X) /\
+      (X = hi ^ 2 -> N.even c = true) /\ ((0 < c)%N -> X = lo ^ 2 -> N.even c = true).
+Proof. exact nsqrt_correctly_rounded. Qed.
+Theorem C08_sqrt_zero_negative_defined :
+  (forall c e, (c = 0 -> nsqrt (c, e) = Some (0, 0)) /\ (c < 0 -> nsqrt (c, e) = None)) /\
+  (forall a, nfmt a -> 0 <= fst a -> exists r, nsqrt a = Some r).
+Proof. exact (conj nsqrt_zero_negative nsqrt_defined). Qed.
+(* the square: round_prec p = Base/DecRound.v round34 with the precision as an argument *)
+Theorem C08_square_two_roundings :
+  (forall a, nsquare a = num_result (obind (round_prec 37 false (Z.abs_N (fst a) * Z.abs_N (fst a)) (snd a + snd a))
+                                           (fun y => round34 false (coef y) (expo y)))) /\
+  (forall s m e, round_prec 34 s m e = round34 s m e).
+Proof. exact (conj nsquare_two_roundings round_prec_34). Qed.
+Theorem C08_square_exact_within_34_digits :
+  forall a, fst a * fst a < 10 ^ 34 -> -6176 <= 2 * snd a <= 6108 -> exists r, nsquare a = Some r /\ nveq r (fst a * fst a, 2 * snd a).
+Proof. exact nsquare_exact_within_34_digits. Qed.
+(* FeelNumber::square is not the correctly rounded product: ...946.50025 -> (37 digits) ...946500 -> (34 digits, tie to even) ...946 *)
+Example C08_square_is_not_the_rounded_product :
+  nsquare (10684414991928191245, 0) = Some (1141567237197398909870474465772946, 5) /\
+  num_result (dmul (to_dec (10684414991928191245, 0)) (to_dec (10684414991928191245, 0))) = Some (1141567237197398909870474465772947, 5) /\
+  10684414991928191245 * 10684414991928191245 = 114156723719739890987047446577294650025.
+Proof. exact nsquare_is_not_the_rounded_product. Qed.
+(* every step and every aggregate of numbers in format gives a number in format, or null *)
+Theorem C08_steps_in_format :
+  forall a b r,
+  (nadd a b = Some r -> nfmt r) /\ (nsub a b = Some r -> nfmt r) /\ (ndiv a b = Some r -> nfmt r) /\
+  (nsqrt a = Some r -> nfmt r) /\ (nsquare a = Some r -> nfmt r).
+Proof. exact steps_in_format. Qed.
+Theorem C08_aggregates_in_format :
+  forall x xs, nfmt x -> Forall nfmt xs ->
+  let l := map vnum (x :: xs) in vfmt (b_sum l) /\ vfmt (b_mean l) /\ vfmt (b_median l) /\ vfmt (b_stddev l).
+Proof. exact aggregates_in_format. Qed.
 Example C08_stddev_nonvacuous :
-  b_stddev sqrt_int (map vnum [(1, 0); (2, 0); (3, 0)]) = VNum 1 0 /\
-  b_stddev sqrt_int (map vnum [(10, 0); (20, 0); (60, 0)]) = VNull /\
-  match stddev_radicand_of (map vnum [(10, 0); (20, 0); (60, 0)]) with Some r => ncmp (fst r) (snd r) 700 0 | None => Gt end = Eq /\
-  match stddev_radicand_of (map vnum [(2, 0); (4, 0); (4, 0); (4, 0); (5, 0); (5, 0); (7, 0); (9, 0)]) with
-  | Some r => ncmp (fst r * 7) (snd r) 32 0 | None => Gt end = Lt /\
-  rsub (5, 0) (1, 0) = (4, 0).
+  b_stddev (map vnum [(2, 0); (4, 0); (4, 0); (4, 0); (5, 0); (5, 0); (7, 0); (9, 0)]) = VNum 2138089935299395077476427847038028 (-33) /\
+  pos_stddev [VNum 10 0; VNum 20 0; VNum 60 0] = VNum 264575131106459059050161575363926 (-31) /\
+  b_stddev (map vnum [(1, 0); (2, 0); (3, 0)]) = VNum 1 0 /\
+  stddev_radicand_of (map vnum [(10, 0); (20, 0); (60, 0)]) = Some (7, 2) /\
+  pos_stddev [VNum 10 0] = VNull /\ pos_stddev [VList [VNum 1 0; VNum 3 0]] = b_stddev [VNum 1 0; VNum 3 0] /\
+  b_stddev (map vnum [(10684414991928191245, 0); (-10684414991928191245, 0)]) = VNum 1511004458760727092163960783891233 (-14).
 Proof. exact stddev_nonvacuous. Qed.
-
-(* sqrt_dec : the decimal128 square root of Base/DecRound.v (correctly rounded: C02/Sqrt.v) *)
-Example C08_stddev_with_decimal_sqrt :
-  b_stddev sqrt_dec (map vnum [(2, 0); (4, 0); (4, 0); (4, 0); (5, 0); (5, 0); (7, 0); (9, 0)]) = VNum 2138089935299395077476427847038028 (-33) /\
-  pos_stddev sqrt_dec [VNum 10 0; VNum 20 0; VNum 60 0] = VNum 2645751311064590590501615753639260 (-32) /\
-  pos_stddev sqrt_dec [VNum 10 0] = VNull /\ pos_stddev sqrt_dec [VList [VNum 1 0; VNum 3 0]] = b_stddev sqrt_dec [VNum 1 0; VNum 3 0].
-Proof. exact stddev_dec_nonvacuous. Qed.
+(* the pinned commit returned Infinity (None: not a FEEL value) where a sum leaves the range; repaired: null *)
+Theorem C08_orig_sum_overflow_refuted :
+  let big := VNum 9999999999999999999999999999999999 6111 in
+  pos_orig Sum [big; big] = None /\ pos Sum [big; big] = Some VNull /\
+  pos_orig Median [VList [big; big]] = None /\ pos Median [VList [big; big]] = Some VNull /\
+  nam_orig Sum [(PList, VList [big; VNum 5 6110])] = None /\ nam Sum [(PList, VList [big; VNum 5 6110])] = Some VNull /\
+  pos_orig Sum [big; VNum 4 6110] = Some big /\ pos_orig Sum [big; VNull] = Some VNull /\ pos_orig Sum [] = Some VNull.
+Proof. exact orig_sum_overflow_refuted. Qed.
 
 (* split / replace / matches with a literal pattern *)
 Theorem C08_split_join :
@@ -466,9 +603,6 @@ Print Assumptions C08_ends_with.
 Print Assumptions C08_substring_before_after.
 Print Assumptions C08_substring_before_after_no_match.
 Print Assumptions C08_string_length.
-Print Assumptions C08_sum.
-Print Assumptions C08_mean.
-Print Assumptions C08_median.
 Print Assumptions C08_sort_permutation.
 Print Assumptions C08_sort_ascending.
 Print Assumptions C08_aggregates_empty.
@@ -503,11 +637,6 @@ Print Assumptions C08_number_order_is_strict_weak.
 Print Assumptions C08_sort_nonvacuous.
 Print Assumptions C08_median_order_statistic.
 Print Assumptions C08_order_statistic_is_determined.
-Print Assumptions C08_stddev.
-Print Assumptions C08_stddev_outside_domain.
-Print Assumptions C08_rounding_exact_within_34_digits.
-Print Assumptions C08_stddev_nonvacuous.
-Print Assumptions C08_stddev_with_decimal_sqrt.
 Print Assumptions C08_split_join.
 Print Assumptions C08_split_pieces_free.
 Print Assumptions C08_split_equation.
@@ -522,3 +651,26 @@ Print Assumptions C08_split_replace_forms.
 Print Assumptions C08_replace_trim_known.
 Print Assumptions C08_literal_nonvacuous.
 Print Assumptions C08_nonvacuous.
+Print Assumptions C08_operators_are_the_shared_layer.
+Print Assumptions C08_number_datum_round_trip.
+Print Assumptions C08_sum_is_rounded_fold.
+Print Assumptions C08_add_correctly_rounded.
+Print Assumptions C08_add_exact_within_34_digits.
+Print Assumptions C08_sub_is_add_of_the_negation.
+Print Assumptions C08_sum_in_format.
+Print Assumptions C08_sum_order_matters.
+Print Assumptions C08_mean_correctly_rounded.
+Print Assumptions C08_div_correctly_rounded.
+Print Assumptions C08_div_zero_cases.
+Print Assumptions C08_median_spec.
+Print Assumptions C08_stddev_spec.
+Print Assumptions C08_stddev_outside_domain.
+Print Assumptions C08_sqrt_correctly_rounded.
+Print Assumptions C08_sqrt_zero_negative_defined.
+Print Assumptions C08_square_two_roundings.
+Print Assumptions C08_square_exact_within_34_digits.
+Print Assumptions C08_square_is_not_the_rounded_product.
+Print Assumptions C08_steps_in_format.
+Print Assumptions C08_aggregates_in_format.
+Print Assumptions C08_stddev_nonvacuous.
+Print Assumptions C08_orig_sum_overflow_refuted.
